@@ -1313,7 +1313,7 @@ func parseDescriptors(i *astikit.BytesIterator) (o []*Descriptor, err error) {
 						err = fmt.Errorf("astits: fetching next bytes failed: %w", err)
 						return
 					}
-				} else {
+				} else if err = func() (err error) {
 					// Switch on tag
 					switch d.Tag {
 					case DescriptorTagAC3:
@@ -1437,6 +1437,13 @@ func parseDescriptors(i *astikit.BytesIterator) (o []*Descriptor, err error) {
 							return
 						}
 					}
+					return
+				}(); err != nil {
+					// The content doesn't hold what its tag implies and nothing it could be read from follows the
+					// descriptor either: as with any other corrupted content the descriptor is kept, with its tag and its
+					// length, and the descriptors and loop entries that follow are parsed from where it ends
+					*d = Descriptor{Length: d.Length, Tag: d.Tag}
+					err = nil
 				}
 
 				// Seek in iterator to make sure we move to the end of the descriptor since its content may be
